@@ -389,15 +389,24 @@ Proof.
   unfold subst_m1. rewrite !map_map. apply map_ext. intros a. simpl. destruct (a =? -1); reflexivity.
 Qed.
 
+Lemma count_pyints l :
+  Z.of_nat (length (filter (fun v => match as_int v with Some d => d =? -1 | None => false end) (map VInt l)))
+  = Z.of_nat (count_m1 l).
+Proof.
+  unfold count_m1. f_equal. induction l as [|a l IH]; simpl; [reflexivity|]. destruct (a =? -1); simpl; auto.
+Qed.
+
 (* the generated `-1` inference, in closed form *)
 Lemma reshape_infer_closed new sz :
   g_reshape_infer (pyints new) (VInt sz) =
   let known := size (filter not_m1 new) in
-  if (known =? 0) || negb (sz mod known =? 0) then Raise ValueError
+  if (1 <? Z.of_nat (count_m1 new)) || (known =? 0) || negb (sz mod known =? 0) then Raise ValueError
   else Ok (VTuple [pyints (subst_m1 (sz / known) new)]).
 Proof.
-  unfold g_reshape_infer, pyints. cbn. rewrite fold_prod_pyints.
+  unfold g_reshape_infer, pyints. cbn. rewrite fold_prod_pyints, count_pyints.
   set (known := size (filter not_m1 new)).
+  rewrite (Z.gtb_ltb (Z.of_nat (count_m1 new)) 1).
+  destruct (Z.ltb_spec 1 (Z.of_nat (count_m1 new))) as [Ec|Ec]; cbn; [reflexivity|].
   destruct (Z.eqb_spec known 0) as [E0|E0]; cbn; [reflexivity|].
   destruct (Z.eqb_spec known 0); [contradiction|]. cbn.
   destruct (Z.eqb_spec (sz mod known) 0) as [Em|Em]; cbn; [|reflexivity].
@@ -454,20 +463,21 @@ Lemma size_pos_of_ok l : shape_ok l -> size l <> 0 -> 0 < size l.
 Proof. intros H Hn. pose proof (size_nonneg _ H). lia. Qed.
 
 Theorem reshape_minus1_spec_proof sh new :
-  shape_ok sh -> (count_m1 new <= 1)%nat -> coo_reshape_shape sh new = np_reshape_target sh new.
+  shape_ok sh -> coo_reshape_shape sh new = np_reshape_target sh new.
 Proof.
-  intros Hok Hc. pose proof (size_nonneg _ Hok) as Hsz.
+  intros Hok. pose proof (size_nonneg _ Hok) as Hsz.
   unfold coo_reshape_shape, np_reshape_target.
   change (filter (fun d => negb (d =? -1)) new) with (filter not_m1 new).
   change (length (filter (fun d => d =? -1) new)) with (count_m1 new).
   rewrite existsb_m1_count.
-  destruct (count_m1 new) as [|[|k]] eqn:Ec; [| |lia]; simpl.
+  destruct (count_m1 new) as [|[|k]] eqn:Ec; simpl.
   - (* no -1 *)
     rewrite (filter_not_m1_id new Ec).
     rewrite (Z.eqb_sym (size sh) (size new)).
     destruct (existsb (fun d => d <? 0) new); destruct (size new =? size sh); reflexivity.
   - (* exactly one -1 *)
-    rewrite reshape_infer_closed. cbv zeta.
+    rewrite reshape_infer_closed. cbv zeta. rewrite Ec.
+    change (1 <? Z.of_nat 1) with false. cbn [orb].
     set (known := size (filter not_m1 new)).
     destruct (existsb (fun d => d <? 0) (filter not_m1 new)) eqn:En.
     + (* a negative known extent: both reject *)
@@ -488,13 +498,17 @@ Proof.
       apply shape_ok_existsb in En. rewrite En. simpl.
       destruct (Z.ltb_spec (size sh / known) 0) as [Hlt|Hge]; [|reflexivity].
       exfalso. pose proof (Z.div_pos (size sh) known Hsz Hkp). lia.
+  - (* several -1: rejected by the count test (commit dbf0c20), as NumPy does *)
+    rewrite reshape_infer_closed. cbv zeta. rewrite Ec.
+    assert (H1 : (1 <? Z.of_nat (S (S k))) = true) by (apply Z.ltb_lt; lia). rewrite H1. simpl.
+    destruct (existsb (fun d => d <? 0) (filter not_m1 new)); reflexivity.
 Qed.
 
 (* the GCXS.reshape site: the generated text is the same inference; only the order of the tests differs *)
 Theorem gcxs_reshape_minus1_spec_proof sh new :
-  shape_ok sh -> (count_m1 new <= 1)%nat -> gcxs_reshape_shape sh new = np_reshape_target sh new.
+  shape_ok sh -> gcxs_reshape_shape sh new = np_reshape_target sh new.
 Proof.
-  intros Hok Hc. rewrite <- (reshape_minus1_spec_proof sh new Hok Hc).
+  intros Hok. rewrite <- (reshape_minus1_spec_proof sh new Hok).
   unfold gcxs_reshape_shape, coo_reshape_shape.
   change g_gcxs_reshape_infer with g_reshape_infer.
   destruct (if existsb (fun d => d =? -1) new then _ else Ok new) as [n'|e]; simpl; [|reflexivity].
@@ -643,13 +657,13 @@ Section Reshape.
   Theorem reshape_den_proof new r :
     coo_reshape x new = Ok r ->
     shape_ok (c_shape r) /\ size (c_shape r) = size (c_shape x) /\ c_fill r = c_fill x /\
-    ((count_m1 new <= 1)%nat -> np_reshape_target (c_shape x) new = Ok (c_shape r)) /\
+    np_reshape_target (c_shape x) new = Ok (c_shape r) /\
     forall ix, in_range (c_shape r) ix -> den r ix = np_reshape (c_shape x) (c_shape r) (den x) ix.
   Proof.
     rewrite coo_reshape_cases. destruct (idx_eqb (c_shape x) new) eqn:Eid.
     - apply idx_eqb_eq in Eid. intros H; inversion H; subst r. clear H.
       repeat split; try assumption.
-      + intros Hc. rewrite <- (reshape_minus1_spec_proof _ _ Hsh Hc). rewrite <- Eid.
+      + rewrite <- (reshape_minus1_spec_proof _ _ Hsh). rewrite <- Eid.
         unfold coo_reshape_shape.
         assert (Hn : existsb (fun d => d =? -1) (c_shape x) = false).
         { apply shape_ok_existsb in Hsh. clear -Hsh. induction (c_shape x) as [|d l IH]; simpl in *; [reflexivity|].
@@ -662,7 +676,7 @@ Section Reshape.
       destruct (coo_reshape_shape_facts new sh' Es) as [Hok' Hsize].
       intros H; inversion H; subst r; clear H. simpl.
       repeat split; try assumption.
-      + intros Hc. rewrite <- (reshape_minus1_spec_proof _ _ Hsh Hc). assumption.
+      + rewrite <- (reshape_minus1_spec_proof _ _ Hsh). assumption.
       + intros ix Hi. unfold np_reshape.
         apply (remap_den_inverse V x sh' (fun c => unravel_strided sh' (ravel (c_shape x) c)) true Hx
                  (reshape_f_inj (c_shape x) sh' Hok' Hsize)
@@ -691,23 +705,24 @@ Section Reshape.
   Theorem reshape_accepts_proof new t :
     np_reshape_target (c_shape x) new = Ok t -> exists r, coo_reshape x new = Ok r /\ c_shape r = t.
   Proof.
-    intros Ht. destruct (reshape_target_facts _ _ _ Hsh Ht) as [Hok' [Hsize Hc]].
+    intros Ht.
     rewrite coo_reshape_cases. destruct (idx_eqb (c_shape x) new) eqn:Eid.
     - exists x. split; [reflexivity|]. apply idx_eqb_eq in Eid.
       destruct (reshape_den_proof new x) as [_ [_ [_ [Ht' _]]]].
       { rewrite coo_reshape_cases. rewrite <- Eid, idx_eqb_refl. reflexivity. }
-      rewrite (Ht' Hc) in Ht. congruence.
-    - rewrite (reshape_minus1_spec_proof _ _ Hsh Hc), Ht. eexists. split; reflexivity.
+      rewrite Ht' in Ht. congruence.
+    - rewrite (reshape_minus1_spec_proof _ _ Hsh), Ht. eexists. split; reflexivity.
   Qed.
 
+  (* every target NumPy rejects (several -1 included, since commit dbf0c20) raises ValueError *)
   Theorem reshape_rejects_proof new e :
-    (count_m1 new <= 1)%nat -> np_reshape_target (c_shape x) new = Raise e -> coo_reshape x new = Raise ValueError.
+    np_reshape_target (c_shape x) new = Raise e -> coo_reshape x new = Raise ValueError.
   Proof.
-    intros Hc Ht. rewrite coo_reshape_cases. destruct (idx_eqb (c_shape x) new) eqn:Eid.
+    intros Ht. rewrite coo_reshape_cases. destruct (idx_eqb (c_shape x) new) eqn:Eid.
     - exfalso. destruct (reshape_den_proof new x) as [_ [_ [_ [Ht' _]]]].
       { rewrite coo_reshape_cases, Eid. reflexivity. }
-      rewrite (Ht' Hc) in Ht. discriminate.
-    - rewrite (reshape_minus1_spec_proof _ _ Hsh Hc), Ht.
+      rewrite Ht' in Ht. discriminate.
+    - rewrite (reshape_minus1_spec_proof _ _ Hsh), Ht.
       unfold np_reshape_target in Ht.
       repeat match type of Ht with
       | (if ?b then _ else _) = _ => destruct b
@@ -723,7 +738,7 @@ Section Reshape.
   Proof.
     unfold coo_flatten. intros Hr.
     destruct (reshape_den_proof [-1] r Hr) as [_ [_ [Hf [Ht Hd]]]].
-    specialize (Ht (le_n 1)). unfold np_reshape_target in Ht. simpl in Ht.
+    unfold np_reshape_target in Ht. simpl in Ht.
     rewrite Z.mod_1_r in Ht. simpl in Ht. rewrite Z.div_1_r in Ht. inversion Ht as [Hs].
     split; [reflexivity|]. split; [assumption|]. intros i Hi.
     rewrite Hd by (rewrite <- Hs; simpl; lia). unfold np_reshape. rewrite <- Hs. simpl.
@@ -835,36 +850,6 @@ Section FlipRoll.
 
   (* ---------------------------------------------------------------- flip *)
 
-  Lemma py_axes_Ok (l ax : list Z) :
-    mapM (py_axis (Z.of_nat n)) l = Ok ax <->
-    (Forall (axis_ok (Z.of_nat n)) l /\ ax = map (fun a => a mod Z.of_nat n) l).
-  Proof.
-    rewrite mapM_Ok. revert ax. induction l as [|a l IH]; intros ax.
-    - split; [intros H; inversion H; split; [constructor|reflexivity]|intros [_ ->]; constructor].
-    - split.
-      + intros H; inversion H as [|? b ? bs Hab Hr]; subst. apply IH in Hr. destruct Hr as [Hl ->].
-        unfold py_axis in Hab.
-        destruct (Z.leb_spec (- Z.of_nat n) a); destruct (Z.ltb_spec a (Z.of_nat n)); simpl in Hab; try discriminate.
-        inversion Hab; subst. split; [constructor; [unfold axis_ok; lia|assumption]|]. simpl. f_equal.
-        destruct (Z.ltb_spec a 0).
-        * apply (Z.mod_unique_pos _ _ (-1)); lia.
-        * symmetry. apply Z.mod_small. lia.
-      + intros [Hf ->]. inversion Hf as [|? ? Ha Hl]; subst. simpl. constructor; [|apply IH; auto].
-        unfold py_axis, axis_ok in *.
-        destruct (Z.leb_spec (- Z.of_nat n) a); destruct (Z.ltb_spec a (Z.of_nat n)); simpl; try lia.
-        f_equal. destruct (Z.ltb_spec a 0).
-        * apply (Z.mod_unique_pos _ _ (-1)); lia.
-        * symmetry. apply Z.mod_small. lia.
-  Qed.
-
-  Lemma py_axes_Raise (l : list Z) e :
-    mapM (py_axis (Z.of_nat n)) l = Raise e -> e = IndexError /\ ~ Forall (axis_ok (Z.of_nat n)) l.
-  Proof.
-    intros H. apply mapM_Raise in H. destruct H as [a [Hin Ha]]. unfold py_axis in Ha.
-    destruct ((- Z.of_nat n <=? a) && (a <? Z.of_nat n)) eqn:E; [discriminate|]. inversion Ha; subst.
-    split; [reflexivity|]. intros Hf. rewrite Forall_forall in Hf. specialize (Hf _ Hin). unfold axis_ok in Hf. lia.
-  Qed.
-
   Definition flip_g (ax : list Z) (k i : Z) : Z := if memz k ax then zget sh k 0 - 1 - i else i.
 
   Lemma flip_fold_nth (ax : list Z) (c acc : idx) k :
@@ -912,16 +897,19 @@ Section FlipRoll.
   Theorem flip_den_proof axis r :
     coo_flip x axis = Ok r ->
     let ax := map (fun a => a mod Z.of_nat n) (flip_axes axis) in
-    Forall (axis_ok (Z.of_nat n)) (flip_axes axis) /\
+    Forall (axis_ok (Z.of_nat n)) (flip_axes axis) /\ NoDup ax /\
     c_shape r = sh /\ c_fill r = c_fill x /\
     canonical V r /\ (prunedb veqb x = true -> prunedb veqb r = true) /\
     forall ix, in_range sh ix -> den r ix = np_flip sh ax (den x) ix.
   Proof.
     unfold coo_flip. change (ndim x) with (Z.of_nat n).
     change (match axis with AxNone => zrange (Z.of_nat n) | AxInt a => [a] | AxTup l => l end) with (flip_axes axis).
-    destruct (mapM (py_axis (Z.of_nat n)) (flip_axes axis)) as [ax|e] eqn:E; simpl; [|discriminate].
-    apply py_axes_Ok in E. destruct E as [Hf ->]. intros H; inversion H; subst r; clear H.
-    set (ax := map (fun a => a mod Z.of_nat n) (flip_axes axis)).
+    destruct (norm_axes (Z.of_nat n) (flip_axes axis)) as [ax|e] eqn:E; simpl; [|discriminate].
+    apply norm_axes_Ok in E; [|lia]. destruct E as [Hf ->].
+    destruct (has_dup (map (fun a => a mod Z.of_nat n) (flip_axes axis))) eqn:Ed; [discriminate|].
+    apply has_dup_NoDup in Ed.
+    intros H; inversion H; subst r; clear H.
+    set (ax := map (fun a => a mod Z.of_nat n) (flip_axes axis)) in *.
     assert (Hr : forall a, In a ax -> 0 <= a < Z.of_nat n).
     { intros a Ha. apply in_map_iff in Ha. destruct Ha as [b [<- Hb]]. apply mod_in_range.
       rewrite Forall_forall in Hf. auto. }
@@ -929,18 +917,27 @@ Section FlipRoll.
     - intros c Hc. apply flip_idx_mapi; assumption.
     - intros k i Hk Hi. unfold flip_g. rewrite zget_nth. destruct (memz (Z.of_nat k) ax); lia.
     - intros k i Hk Hi. unfold flip_g. rewrite zget_nth. destruct (memz (Z.of_nat k) ax); lia.
-    - split; [assumption|]. split; [reflexivity|]. split; [reflexivity|]. split; [exact Hc|]. split; [exact Hp|].
-      intros ix Hi. exact (Hd ix Hi).
+    - split; [assumption|]. split; [assumption|]. split; [reflexivity|]. split; [reflexivity|]. split; [exact Hc|].
+      split; [exact Hp|]. intros ix Hi. exact (Hd ix Hi).
   Qed.
 
+  (* accepted exactly when NumPy accepts: axes in range and, once normalised, distinct (commit 7be2e09);
+     every rejection is a ValueError *)
   Theorem flip_accepts_iff_proof axis :
-    (exists r, coo_flip x axis = Ok r) <-> Forall (axis_ok (Z.of_nat n)) (flip_axes axis).
+    ((exists r, coo_flip x axis = Ok r) <->
+     (Forall (axis_ok (Z.of_nat n)) (flip_axes axis) /\ NoDup (map (fun a => a mod Z.of_nat n) (flip_axes axis)))) /\
+    (forall e, coo_flip x axis = Raise e -> e = ValueError).
   Proof.
     unfold coo_flip. change (ndim x) with (Z.of_nat n).
     change (match axis with AxNone => zrange (Z.of_nat n) | AxInt a => [a] | AxTup l => l end) with (flip_axes axis).
-    destruct (mapM (py_axis (Z.of_nat n)) (flip_axes axis)) as [ax|e] eqn:E; simpl.
-    - apply py_axes_Ok in E. split; [tauto|eauto].
-    - apply py_axes_Raise in E. split; [intros [r Hr]; discriminate|tauto].
+    destruct (norm_axes (Z.of_nat n) (flip_axes axis)) as [ax|e] eqn:E; simpl.
+    - apply norm_axes_Ok in E; [|lia]. destruct E as [Hf ->].
+      destruct (has_dup (map (fun a => a mod Z.of_nat n) (flip_axes axis))) eqn:Ed.
+      + split; [|intros e H; inversion H; reflexivity]. split; [intros [r Hr]; discriminate|].
+        intros [_ Hn]. apply has_dup_NoDup in Hn. congruence.
+      + apply has_dup_NoDup in Ed. split; [|intros e H; discriminate]. split; [tauto|eauto].
+    - apply norm_axes_Raise in E; [|lia]. destruct E as [-> Hn].
+      split; [|intros e H; inversion H; reflexivity]. split; [intros [r Hr]; discriminate|tauto].
   Qed.
 End FlipRoll.
 
@@ -1131,8 +1128,7 @@ Section RollFlat.
     destruct (reshape_den_proof V r2 Hc2 Hok2 (c_shape x) r E3) as [Hokr [Hsr [Hfr [Htr Hdr]]]].
     destruct (reshape_canonical_proof V veqb r2 Hc2 Hok2 (c_shape x) r E3) as [Hcr Hpr].
     assert (Hshape : c_shape r = c_shape x).
-    { specialize (Htr ltac:(rewrite (count_m1_ok _ Hsh); lia)).
-      rewrite np_reshape_target_same_size in Htr; [congruence|assumption|].
+    { rewrite np_reshape_target_same_size in Htr; [congruence|assumption|].
       rewrite H2s. simpl. lia. }
     split; [assumption|]. split; [congruence|]. split; [assumption|]. split; [auto|].
     intros ix Hi. rewrite Hdr by (rewrite Hshape; assumption).
@@ -1381,8 +1377,10 @@ Section Squeeze.
 
   Definition squeezable : list Z := filter (fun d => zget sh d 0 =? 1) (zrange (Z.of_nat n)).
 
+  (* the axes after `d + ndim if -ndim <= d < 0 else d` *)
   Definition squeeze_axes (axis : axarg) : list Z :=
-    match axis with AxNone => squeezable | AxInt a => [a] | AxTup l => l end.
+    map (fun d => if (- Z.of_nat n <=? d) && (d <? 0) then d + Z.of_nat n else d)
+        (match axis with AxNone => squeezable | AxInt a => [a] | AxTup l => l end).
 
   Lemma squeezable_In d : In d squeezable <-> (0 <= d < Z.of_nat n /\ zget sh d 0 = 1).
   Proof. unfold squeezable. rewrite filter_In, zrange_In, Z.eqb_eq. tauto. Qed.
@@ -1407,14 +1405,16 @@ Section Squeeze.
   Theorem squeeze_den_proof axis r :
     coo_squeeze x axis = Ok r ->
     let ax := squeeze_axes axis in
-    Forall (fun d => In d squeezable) ax /\
+    NoDup ax /\ Forall (fun d => In d squeezable) ax /\
     c_shape r = np_squeeze_shape sh ax /\ c_fill r = c_fill x /\
     canonical V r /\ (prunedb veqb x = true -> prunedb veqb r = true) /\
     forall ix, in_range (c_shape r) ix -> den r ix = np_squeeze sh ax (den x) ix.
   Proof.
     unfold coo_squeeze. change (ndim x) with (Z.of_nat n). fold sh. fold squeezable.
-    change (match axis with AxNone => squeezable | AxInt a => [a] | AxTup l => l end) with (squeeze_axes axis).
+    change (map (fun d => if (- Z.of_nat n <=? d) && (d <? 0) then d + Z.of_nat n else d)
+                (match axis with AxNone => squeezable | AxInt a => [a] | AxTup l => l end)) with (squeeze_axes axis).
     set (ax := squeeze_axes axis).
+    destruct (has_dup ax) eqn:Edup; [discriminate|]. apply has_dup_NoDup in Edup.
     destruct (mapM _ ax) as [u|e] eqn:E; simpl; [|discriminate].
     assert (Hall : Forall (fun d => In d squeezable) ax) by (apply squeeze_check_Ok; eauto).
     intros H; inversion H; subst r; clear H.
@@ -1437,7 +1437,7 @@ Section Squeeze.
               select_axes (filter p (zrange (Z.of_nat n))) a 0 = select_axes (filter p (zrange (Z.of_nat n))) b 0 -> a = b).
     { intros a b Ha Hb He. rewrite (Hf a Ha), (Hf b Hb) in He.
       rewrite <- (unkeep_keep keep sh a Hmask Ha), <- (unkeep_keep keep sh b Hmask Hb), He. reflexivity. }
-    split; [assumption|]. split; [reflexivity|]. split; [reflexivity|].
+    split; [assumption|]. split; [assumption|]. split; [reflexivity|]. split; [reflexivity|].
     change (filter (fun d => negb (memz d ax)) (zrange (Z.of_nat n))) with (filter p (zrange (Z.of_nat n))).
     split; [|split].
     - apply remap_canonical; [assumption| |assumption|].
@@ -1454,13 +1454,20 @@ Section Squeeze.
       + change 0 with (Z.of_nat 0). rewrite insert_zeros_unkeep. unfold keep. rewrite zrange_of_nat. reflexivity.
   Qed.
 
+  (* accepted exactly when the normalised axes are distinct and all of length 1 (as NumPy, commit 71cae31) *)
   Theorem squeeze_accepts_iff_proof axis :
-    (exists r, coo_squeeze x axis = Ok r) <-> Forall (fun d => In d squeezable) (squeeze_axes axis).
+    (exists r, coo_squeeze x axis = Ok r) <->
+    (NoDup (squeeze_axes axis) /\ Forall (fun d => In d squeezable) (squeeze_axes axis)).
   Proof.
     unfold coo_squeeze. change (ndim x) with (Z.of_nat n). fold sh. fold squeezable.
-    change (match axis with AxNone => squeezable | AxInt a => [a] | AxTup l => l end) with (squeeze_axes axis).
+    change (map (fun d => if (- Z.of_nat n <=? d) && (d <? 0) then d + Z.of_nat n else d)
+                (match axis with AxNone => squeezable | AxInt a => [a] | AxTup l => l end)) with (squeeze_axes axis).
     rewrite <- squeeze_check_Ok.
-    destruct (mapM _ (squeeze_axes axis)) as [u|e]; simpl; split; eauto; intros [r Hr]; discriminate.
+    destruct (has_dup (squeeze_axes axis)) eqn:Edup.
+    - split; [intros [r Hr]; discriminate|]. intros [Hn _]. apply has_dup_NoDup in Hn. congruence.
+    - apply has_dup_NoDup in Edup.
+      destruct (mapM _ (squeeze_axes axis)) as [u|e]; simpl; split; eauto; try (intros [r Hr]; discriminate).
+      intros [_ [u Hu]]. discriminate.
   Qed.
 End Squeeze.
 
@@ -1626,7 +1633,7 @@ Section TransposeCorollaries.
     let dst := map (fun a => a mod Z.of_nat n) (ax_list destination) in
     let perm := moveaxis_order (Z.of_nat n) src dst in
     Forall (axis_ok (Z.of_nat n)) (ax_list source) /\ Forall (axis_ok (Z.of_nat n)) (ax_list destination) /\
-    length src = length dst /\ is_perm (Z.of_nat n) perm = true /\
+    length src = length dst /\ NoDup dst /\ is_perm (Z.of_nat n) perm = true /\
     c_shape r = np_transpose_shape sh perm /\ c_fill r = c_fill x /\
     canonical V r /\ (prunedb veqb x = true -> prunedb veqb r = true) /\
     forall ix, in_range (c_shape r) ix -> den r ix = np_transpose perm (den x) ix.
@@ -1638,6 +1645,7 @@ Section TransposeCorollaries.
     destruct Es as [Hfs ->], Ed as [Hfd ->].
     set (src := map (fun a => a mod Z.of_nat n) (ax_list source)).
     set (dst := map (fun a => a mod Z.of_nat n) (ax_list destination)).
+    destruct (has_dup dst) eqn:Edd; [discriminate|]. apply has_dup_NoDup in Edd.
     destruct (Nat.eqb_spec (length src) (length dst)) as [El|El]; simpl; [|discriminate].
     set (perm := moveaxis_order (Z.of_nat n) src dst). intros Hr'.
     assert (Hrange : forall a, In a perm -> 0 <= a < Z.of_nat n).
@@ -1646,7 +1654,33 @@ Section TransposeCorollaries.
     assert (Hperm : tr_perm (Z.of_nat n) (Some perm) = perm) by (unfold tr_perm; apply map_mod_id; assumption).
     destruct (transpose_den_proof V x Hx _ r Hr') as [[_ Hv] [Hs [Hfl Hd]]].
     destruct (transpose_canonical_proof V veqb x Hx _ r Hr') as [Hc Hp].
-    change (ndim x) with (Z.of_nat n) in Hs, Hd, Hv. rewrite Hperm in Hs, Hd, Hv. cbv zeta. auto 12.
+    change (ndim x) with (Z.of_nat n) in Hs, Hd, Hv. rewrite Hperm in Hs, Hd, Hv. cbv zeta. auto 14.
+  Qed.
+  (* repeated destination axes are rejected, as NumPy does (commit 1529999); every rejection is a ValueError *)
+  Theorem moveaxis_rejects_proof source destination :
+    (Forall (axis_ok (Z.of_nat n)) (ax_list destination) ->
+     Forall (axis_ok (Z.of_nat n)) (ax_list source) ->
+     ~ NoDup (map (fun a => a mod Z.of_nat n) (ax_list destination)) ->
+     coo_moveaxis x source destination = Raise ValueError) /\
+    (forall e, coo_moveaxis x source destination = Raise e -> e = ValueError).
+  Proof.
+    unfold coo_moveaxis. change (ndim x) with (Z.of_nat n). split.
+    - intros Hfd Hfs Hn.
+      assert (Es : norm_axes (Z.of_nat n) (ax_list source) = Ok (map (fun a => a mod Z.of_nat n) (ax_list source)))
+        by (apply norm_axes_Ok; [lia|auto]).
+      assert (Ed : norm_axes (Z.of_nat n) (ax_list destination) = Ok (map (fun a => a mod Z.of_nat n) (ax_list destination)))
+        by (apply norm_axes_Ok; [lia|auto]).
+      rewrite Es, Ed. simpl.
+      destruct (has_dup (map (fun a => a mod Z.of_nat n) (ax_list destination))) eqn:E; [reflexivity|].
+      apply has_dup_NoDup in E. tauto.
+    - intros e.
+      destruct (norm_axes (Z.of_nat n) (ax_list source)) as [src|e1] eqn:Es; simpl.
+      2:{ apply norm_axes_Raise in Es; [|lia]. destruct Es as [-> _]. intros H; inversion H; reflexivity. }
+      destruct (norm_axes (Z.of_nat n) (ax_list destination)) as [dst|e1] eqn:Ed; simpl.
+      2:{ apply norm_axes_Raise in Ed; [|lia]. destruct Ed as [-> _]. intros H; inversion H; reflexivity. }
+      destruct (has_dup dst); [intros H; inversion H; reflexivity|].
+      destruct (negb (length src =? length dst)%nat); [intros H; inversion H; reflexivity|].
+      intros H. apply (transpose_rejects_proof V x) in H. tauto.
   Qed.
 End TransposeCorollaries.
 
@@ -1763,6 +1797,37 @@ Proof.
     + destruct (Nat.eqb_spec (length (p1 :: p2 :: ps)) k) as [E|E]; [|discriminate]. intros H; inversion H; subst. reflexivity.
 Qed.
 
+Lemma pad_row_nonneg r pr : pad_row r = Ok pr -> existsb (fun p => p <? 0) r = false -> 0 <= fst pr /\ 0 <= snd pr.
+Proof.
+  destruct r as [|p [|a [|? ?]]]; simpl; try discriminate; intros H; inversion H; subst; simpl;
+    repeat rewrite orb_false_iff; rewrite ?Z.ltb_ge; intuition lia.
+Qed.
+
+Lemma pad_pairs_nonneg k pw prs : pad_pairs k pw = Ok prs -> padw_neg pw = false -> pads_nonneg prs.
+Proof.
+  unfold pads_nonneg. destruct pw as [p|l|rows]; simpl.
+  - intros H Hn; inversion H; subst. apply repeat_Forall. apply Z.ltb_ge in Hn. simpl. lia.
+  - destruct (pad_row l) as [pr|e] eqn:E; simpl; [|discriminate]. intros H Hn; inversion H; subst.
+    apply repeat_Forall. eapply pad_row_nonneg; eauto.
+  - destruct rows as [|r0 rows]; [discriminate|].
+    destruct (negb _); [discriminate|].
+    destruct (mapM pad_row (r0 :: rows)) as [prs'|e] eqn:E; simpl; [|discriminate].
+    intros H Hn.
+    assert (Hgen : forall rs prs0, mapM pad_row rs = Ok prs0 -> existsb (existsb (fun p => p <? 0)) rs = false ->
+                     Forall (fun p : Z * Z => 0 <= fst p /\ 0 <= snd p) prs0).
+    { clear. induction rs as [|r rs IH]; intros prs0 Hm Hn; simpl in Hm.
+      - inversion Hm. constructor.
+      - destruct (pad_row r) as [pr|e] eqn:Er; simpl in Hm; [|discriminate].
+        destruct (mapM pad_row rs) as [ps|e] eqn:Em; simpl in Hm; [|discriminate]. inversion Hm; subst.
+        simpl in Hn. apply orb_false_iff in Hn. destruct Hn as [H1 H2].
+        constructor; [eapply pad_row_nonneg; eauto|apply IH; auto]. }
+    pose proof (Hgen _ _ E Hn) as Hall.
+    destruct prs' as [|p1 [|p2 ps]].
+    + destruct (Nat.eqb_spec (length (@nil (Z * Z))) k); [|discriminate]. inversion H; subst. constructor.
+    + inversion H; subst. apply repeat_Forall. inversion Hall; assumption.
+    + destruct (Nat.eqb_spec (length (p1 :: p2 :: ps)) k); [|discriminate]. inversion H; subst. exact Hall.
+Qed.
+
 Section Pad.
   Variable V : Type.
   Variable veqb : V -> V -> bool.
@@ -1774,14 +1839,14 @@ Section Pad.
   Let sh := c_shape x.
 
   Theorem pad_den_proof pw cv prs :
-    veqb cv (c_fill x) = true -> pad_pairs (length sh) pw = Ok prs -> pads_nonneg prs ->
+    veqb cv (c_fill x) = true -> padw_neg pw = false -> pad_pairs (length sh) pw = Ok prs ->
     exists r, coo_pad veqb x pw cv = Ok r /\
       c_shape r = np_pad_shape sh prs /\ c_fill r = c_fill x /\
       canonical V r /\ (prunedb veqb x = true -> prunedb veqb r = true) /\
       forall ix, in_range (c_shape r) ix -> den r ix = np_pad sh prs cv (den x) ix.
   Proof.
-    intros Hcv Hpw Hnn. pose proof (pad_pairs_length _ _ _ Hpw) as Hlen.
-    unfold coo_pad. rewrite Hcv. simpl. fold sh. rewrite Hpw. simpl.
+    intros Hcv Hneg Hpw. pose proof (pad_pairs_nonneg _ _ _ Hpw Hneg) as Hnn. pose proof (pad_pairs_length _ _ _ Hpw) as Hlen.
+    unfold coo_pad. rewrite Hcv. simpl. rewrite Hneg. fold sh. rewrite Hpw. simpl.
     unfold coo_make_checked. rewrite pad_sh_eq_gen.
     assert (Hok' : existsb (fun d => d <? 0) (pad_sh sh prs) = false).
     { apply shape_ok_existsb. apply pad_sh_ok; assumption. }
@@ -1815,13 +1880,18 @@ Section Pad.
       apply in_rangeb_spec in Hc. unfold sh in *. congruence.
   Qed.
 
+  (* a constant other than the fill value, a negative width (as NumPy, commit d798d44) or a pad_width that does not
+     broadcast to (ndim, 2) is rejected *)
   Theorem pad_rejects_proof pw cv :
     (veqb cv (c_fill x) = false -> coo_pad veqb x pw cv = Raise ValueError) /\
-    (forall e, veqb cv (c_fill x) = true -> pad_pairs (length sh) pw = Raise e -> coo_pad veqb x pw cv = Raise e).
+    (veqb cv (c_fill x) = true -> padw_neg pw = true -> coo_pad veqb x pw cv = Raise ValueError) /\
+    (forall e, veqb cv (c_fill x) = true -> padw_neg pw = false -> pad_pairs (length sh) pw = Raise e ->
+               coo_pad veqb x pw cv = Raise e).
   Proof.
-    unfold coo_pad. split.
+    unfold coo_pad. split; [|split].
     - intros ->. reflexivity.
-    - intros e -> H. simpl. fold sh. rewrite H. reflexivity.
+    - intros -> ->. reflexivity.
+    - intros e -> -> H. simpl. fold sh. rewrite H. reflexivity.
   Qed.
 End Pad.
 
@@ -1872,69 +1942,26 @@ Example pad_nonvacuous :
   pad_pairs 3 (PW2 [[1; 0]; [0; 2]; [1; 1]]) = Ok [(1, 0); (0, 2); (1, 1)].
 Proof. split; vm_compute; reflexivity. Qed.
 
-(* --- the full statements that are FALSE of the code (new findings of this property) *)
+(* --- inputs of the findings repaired in round 7: now ordinary cases, the model answers as NumPy does *)
+Example repaired_inputs :
+  coo_reshape (mkCOO [1] [[0]] [5] 0) [-1; -1] = Raise ValueError /\
+  coo_squeeze (mkCOO [2; 1] [[1; 0]] [7] 0) (AxInt (-1)) = Ok (mkCOO [2] [[1]] [7] 0) /\
+  coo_squeeze (mkCOO [2; 1] [[1; 0]] [7] 0) (AxTup [1; 1]) = Raise ValueError /\
+  coo_squeeze (mkCOO [2; 1] [[1; 0]] [7] 0) (AxTup [1; -1]) = Raise ValueError /\
+  coo_flip ex_x (AxTup [0; -2]) = Raise ValueError /\
+  coo_flip ex_x (AxInt 2) = Raise ValueError /\
+  coo_moveaxis ex_y (AxTup [0; 2]) (AxTup [1; 1]) = Raise ValueError /\
+  coo_pad Z.eqb (mkCOO [2; 3] [[0; 1]; [1; 0]] [4; 5] 0) (PW2 [[0; 0]; [0; -1]]) 0 = Raise ValueError /\
+  coo_broadcast_to ex_x [3] = Raise ValueError.
+Proof. repeat split; vm_compute; reflexivity. Qed.
 
-(* reshape with several -1: NumPy "can only specify one unknown dimension"; the code accepts them
-   whenever the sizes happen to agree *)
-Theorem reshape_several_minus1_refuted_proof :
-  exists (x : coo Z) new r,
-    canonical Z x /\ np_reshape_target (c_shape x) new = Raise ValueError /\ coo_reshape x new = Ok r.
-Proof.
-  exists (mkCOO [1] [[0]] [5] 0), [-1; -1], (mkCOO [1; 1] [[0; 0]] [5] 0).
-  split; [apply canonical_of_b; reflexivity|]. split; vm_compute; reflexivity.
-Qed.
-
-(* squeeze rejects a negative axis number that NumPy accepts *)
-Theorem squeeze_negative_axis_refuted_proof :
-  exists (x : coo Z) a,
-    canonical Z x /\ np_normalize_axis (ndim x) a = Ok 1 /\ sget (c_shape x) 1 0 = 1 /\
-    coo_squeeze x (AxInt a) = Raise ValueError.
-Proof.
-  exists (mkCOO [2; 1] [[1; 0]] [7] 0), (-1).
-  split; [apply canonical_of_b; reflexivity|]. repeat split; vm_compute; reflexivity.
-Qed.
-
-(* squeeze / flip / moveaxis accept repeated axes that NumPy rejects *)
-Theorem squeeze_duplicate_axis_refuted_proof :
-  exists (x : coo Z) l r, canonical Z x /\ sdup l = true /\ coo_squeeze x (AxTup l) = Ok r.
-Proof.
-  exists (mkCOO [2; 1] [[1; 0]] [7] 0), [1; 1], (mkCOO [2] [[1]] [7] 0).
-  split; [apply canonical_of_b; reflexivity|]. split; vm_compute; reflexivity.
-Qed.
-
-Theorem flip_repeated_axis_refuted_proof :
-  exists (x : coo Z) l r,
-    canonical Z x /\ sdup (map (fun a => a mod ndim x) l) = true /\ coo_flip x (AxTup l) = Ok r.
-Proof.
-  exists ex_x, [0; -2], (mkCOO [2; 3] [[0; 0]; [0; 2]; [1; 1]] [5; 6; 4] 0).
-  split; [apply canonical_of_b; reflexivity|]. split; vm_compute; reflexivity.
-Qed.
-
-Theorem moveaxis_repeated_destination_refuted_proof :
-  exists (x : coo Z) s d r,
-    canonical Z x /\ sdup (map (fun a => a mod ndim x) d) = true /\ coo_moveaxis x (AxTup s) (AxTup d) = Ok r.
-Proof.
-  exists ex_y, [0; 2], [1; 1], (mkCOO [1; 3; 2] [[0; 0; 1]; [0; 1; 0]; [0; 2; 1]] [5; 4; 6] 9).
-  split; [apply canonical_of_b; reflexivity|]. split; vm_compute; reflexivity.
-Qed.
+(* --- the one full statement still FALSE of the code (documented restriction of sparse.roll) *)
 
 (* roll: NumPy broadcasts a tuple of shifts against a single axis (the shifts add up); the code
    demands equal lengths *)
 Theorem roll_tuple_shift_single_axis_refuted_proof :
   exists (x : coo Z), canonical Z x /\ coo_roll_axes x (ShTup [1; 2]) [0] = Raise ValueError.
 Proof. exists ex_x. split; [apply canonical_of_b; reflexivity|vm_compute; reflexivity]. Qed.
-
-(* pad: a negative width is accepted (the array is cropped) where NumPy raises *)
-Theorem pad_negative_width_refuted_proof :
-  exists (x : coo Z) pw prs r,
-    canonical Z x /\ pad_pairs (length (c_shape x)) pw = Ok prs /\ ~ pads_nonneg prs /\
-    coo_pad Z.eqb x pw 0 = Ok r.
-Proof.
-  exists (mkCOO [2; 3] [[0; 1]; [1; 0]] [4; 5] 0), (PW2 [[0; 0]; [0; -1]]), [(0, 0); (0, -1)], (mkCOO [2; 2] [[0; 1]; [1; 0]] [4; 5] 0).
-  split; [apply canonical_of_b; reflexivity|]. split; [reflexivity|]. split.
-  - intros H. inversion H as [|? ? _ H']; subst. inversion H' as [|? ? [_ Hn] _]; subst. simpl in Hn. lia.
-  - vm_compute. reflexivity.
-Qed.
 
 (* ================================================================== broadcast_to *)
 
@@ -2480,6 +2507,17 @@ Proof.
   unfold shape_ok. rewrite forallb_forall, Forall_forall. split; intros H d Hd; specialize (H d Hd); lia.
 Qed.
 
+Lemma bcast_ok_rev_len s t : bcast_ok_rev s t = true -> (length s <= length t)%nat.
+Proof.
+  revert t; induction s as [|a s IH]; intros [|b t]; simpl; try discriminate; try lia.
+  intros H. apply andb_true_iff in H. destruct H as [_ H]. apply IH in H. lia.
+Qed.
+
+Lemma bcast_ok_rev_longer s t : (length t < length s)%nat -> bcast_ok_rev s t = false.
+Proof.
+  intros Hl. destruct (bcast_ok_rev s t) eqn:E; [|reflexivity]. apply bcast_ok_rev_len in E. lia.
+Qed.
+
 Section BroadcastTo.
   Variable V : Type.
   Variable veqb : V -> V -> bool.
@@ -2501,7 +2539,9 @@ Section BroadcastTo.
       split; [reflexivity|]. split; [reflexivity|]. split; [reflexivity|]. split; [assumption|]. split; [auto|].
       intros ix Hi. unfold np_broadcast_to. rewrite bproj_id by assumption. reflexivity.
     - destruct (bcast_rev_aligned (rev sh) (rev target) Hok) as [H1 [H2 [lead [bs2 [ps2 [Ht [Hp Hal2]]]]]]].
-      rewrite H1, H2. simpl. rewrite !rev_involutive in *.
+      assert (Hlen : (length (rev target) <? length (rev sh))%nat = false)
+        by (apply Nat.ltb_ge; apply bcast_ok_rev_len; exact Hok).
+      rewrite Hlen, H1, H2. simpl. rewrite !rev_involutive in *.
       assert (Hneg : existsb (fun d => d <? 0) target = false) by (apply shape_ok_existsb; assumption).
       rewrite Hneg. rewrite Hp.
       set (params := map (fun _ : Z => @None bool) lead ++ ps2).
@@ -2540,20 +2580,20 @@ Section BroadcastTo.
           apply (lookup_In _ _ _ _ Hnde) in Hin. congruence.
   Qed.
 
-  (* rejection, for targets with at least as many axes as the input *)
+  (* every target NumPy rejects raises ValueError (fewer axes than the input included, commit 7dd4784) *)
   Theorem broadcast_to_rejects_proof target :
-    shape_ok sh -> (length sh <= length target)%nat -> np_broadcast_ok sh target = false ->
-    coo_broadcast_to x target = Raise ValueError.
+    shape_ok sh -> np_broadcast_ok sh target = false -> coo_broadcast_to x target = Raise ValueError.
   Proof.
-    intros Hsh Hlen Hno. unfold coo_broadcast_to. fold sh.
+    intros Hsh Hno. unfold coo_broadcast_to. fold sh.
     destruct (idx_eqb target sh) eqn:Eid.
     - exfalso. apply idx_eqb_eq in Eid. subst target. unfold np_broadcast_ok in Hno.
-      assert (bcast_ok_rev (rev sh) (rev sh) = true).
+      assert (Hrefl : bcast_ok_rev (rev sh) (rev sh) = true).
       { clear. induction (rev sh) as [|a l IH]; simpl; [reflexivity|]. rewrite Z.eqb_refl, IH. reflexivity. }
-      rewrite H in Hno. simpl in Hno. apply forallb_nonneg_ok in Hsh. congruence.
-    - assert (Heq : forall s t, (length s <= length t)%nat -> bshape_ok_rev s t = bcast_ok_rev s t).
-      { induction s as [|a s IH]; intros [|b t] Hl; simpl in *; try reflexivity; [lia|]. rewrite IH by lia. reflexivity. }
-      rewrite Heq by (rewrite !rev_length; assumption).
+      rewrite Hrefl in Hno. simpl in Hno. apply forallb_nonneg_ok in Hsh. congruence.
+    - destruct (Nat.ltb_spec (length (rev target)) (length (rev sh))) as [Hl|Hl]; simpl; [reflexivity|].
+      assert (Heq : forall s t, (length s <= length t)%nat -> bshape_ok_rev s t = bcast_ok_rev s t).
+      { induction s as [|a s IH]; intros [|b t] Hl'; simpl in *; try reflexivity; [lia|]. rewrite IH by lia. reflexivity. }
+      rewrite Heq by exact Hl.
       destruct (bcast_ok_rev (rev sh) (rev target)) eqn:Eok; simpl; [|reflexivity].
       destruct (bcast_rev_aligned _ _ Eok) as [_ [H2 _]]. rewrite H2, rev_involutive.
       unfold np_broadcast_ok in Hno. rewrite Eok in Hno. simpl in Hno.
@@ -2561,14 +2601,6 @@ Section BroadcastTo.
       apply shape_ok_existsb in En. apply forallb_nonneg_ok in En. congruence.
   Qed.
 End BroadcastTo.
-
-(* broadcast_to returns its operand for a target with FEWER axes; NumPy raises *)
-Theorem broadcast_to_fewer_dims_refuted_proof :
-  exists (x : coo Z) target r,
-    canonical Z x /\ np_broadcast_ok (c_shape x) target = false /\ coo_broadcast_to x target = Ok r.
-Proof.
-  exists ex_x, [3], ex_x. split; [apply canonical_of_b; reflexivity|]. split; vm_compute; reflexivity.
-Qed.
 
 Example broadcast_to_nonvacuous :
   np_broadcast_ok (c_shape ex_y) [2; 2; 2; 3] = true /\
